@@ -281,6 +281,20 @@ def DDNGraph.getIdP (g : DDNGraph) (i : Nat) (sk sv ak av : List Nat) : Nat :=
   let parentId := toIndexPartialKPF ((g.ps i).features.getD actionId []) g.S sk sv 0 1
   (g.startIds i).getD actionId 0 + parentId
 
+/-- the loop `while (startIds_[feature][actionId] > j) --actionId;` started at `actionId = top` -/
+def scanDown (st : List Nat) (j : Nat) : Nat → Nat
+  | 0 => 0
+  | a+1 => if j < st.getD (a+1) 0 then scanDown st j a else a+1
+
+/-- `DDNGraph::getIds(feature, j)`: the (parentId, actionId) pair of row `j` -/
+def DDNGraph.getIdsInv (g : DDNGraph) (i j : Nat) : Nat × Nat :=
+  let st := g.startIds i
+  let aid := scanDown st j (st.length - 2)
+  (j - st.getD aid 0, aid)
+
+/-- `DDNGraph::getPartialSize(feature, actionId)` -/
+def DDNGraph.getPartialSize (g : DDNGraph) (i aid : Nat) : Nat := (g.startIds i).getD (aid + 1) 0 - (g.startIds i).getD aid 0
+
 def DDNGraph.getSize (g : DDNGraph) (i : Nat) : Nat := (g.startIds i).getLastD 0
 
 abbrev Mat := List (List Rat)
